@@ -241,6 +241,21 @@ def run(ctx: Ctx, tier: str) -> Result:
         res.ok("C18.MERGE", {"merge_in stores every item through __setitem__": True})
     else:
         res.fail(Finding("C18.MERGE", mi.qname, mst[0] if mst else "<self[k] = v for every item>", mi.loc(), "merge_in does not store every (key, value) of the other attributes"))
+    # the resource keeps every key of every source: its own store has no capacity (a bounded one evicts oldest-first, and
+    # the oldest keys of a resource are the SDK identity and the service name)
+    rinit = p.cls(RES).lookup("__init__")
+    bac = p.cls(BA)
+    bainit = bac.lookup("__init__")
+    rctors = [c for c in t.calls_in(rinit) if bac in t.resolve_call(c, rinit).ctor]
+    if not rctors:
+        res.fail(Finding("C18.MERGE", rinit.qname, "<BoundedAttributes(attributes=...)>", rinit.loc(), "the resource does not keep its attributes in the attribute container"))
+    for c in rctors:
+        cap = t.bind_args(bainit, c).get(bainit.params[1])
+        if cap is None or (isinstance(cap, ast.Constant) and cap.value is None):
+            res.ok("C18.MERGE", {"the resource's store has no capacity": norm(c)[:70]})
+        else:
+            res.fail(Finding("C18.MERGE", rinit.qname, c, rinit.loc(c), "the resource's attribute store gets a capacity (`%s`): when the sources together exceed it the oldest keys - the SDK "
+                             "identity keys and the service name - are evicted from the resource sent with every poll and snapshot" % norm(cap)[:50]))
     mg = p.func(RES + ".merge")
     writes = [n for n in t.nodes_in(mg) if (isinstance(n, (ast.Assign, ast.AugAssign)) and any(
         isinstance(x, (ast.Attribute, ast.Subscript)) and norm(x).split(".")[0].split("[")[0] in ("self", mg.params[1]) for x in (n.targets if isinstance(n, ast.Assign) else [n.target])))]
@@ -378,4 +393,39 @@ def run(ctx: Ctx, tier: str) -> Result:
         res.ok("C18.CHAIN", {"plugins": "accumulated.merge(plugin resource) in plugin order, stored as the client resource"})
     else:
         res.fail(Finding("C18.CHAIN", ds.qname, pm[0] if pm else "<resource.merge(plugin)>", ds.loc(), "plugin resources are not merged onto the accumulated resource (later plugin wins) starting from Resource.create()"))
+    # every request identifies the client with the resource the configuration holds at that moment (it is set again on
+    # every start): what goes on the wire is converted from config.resource where the request is built, not remembered
+    import re as _re
+    nreq = 0
+    for f_ in p.functions.values():
+        if not f_.module.name.startswith(("deep.poll", "deep.push")):
+            continue
+        for c in t.calls_in(f_):
+            if not any(e.endswith(".PollRequest") or e.endswith(".Snapshot") for e in t.resolve_call(c, f_).ext):
+                continue
+            for k in c.keywords:
+                if k.arg != "resource":
+                    continue
+                nreq += 1
+                src = ctx.expand.expand(k.value, f_)
+                live = [x for x in src if _re.search(r"config\._?resource", x) or (_re.search(r"@%s\._?resource\._?attributes" % (f_.params[0] if f_.params else "-"), x)
+                                                                                   and not f_.params[0] == "self")]
+                if src and len(live) == len(src):
+                    res.ok("C18.CHAIN", {"request resource converted where the request is built": f_.loc(c)})
+                else:
+                    res.fail(Finding("C18.CHAIN", f_.qname, k.value, f_.loc(k.value), "the request's resource is `%s`, not the configuration's resource converted for this request: after "
+                                     "the resource was replaced (a second start, plugins changed) requests still carry the old identity" % (src[0][:60] if src else norm(k.value))))
+    res.floor("requests that carry the client resource", nreq, 2)
+    # ... and a snapshot takes the resource of the configuration when it is created
+    esc = p.cls("deep.api.tracepoint.eventsnapshot.EventSnapshot")
+    esinit = esc.lookup("__init__")
+    for f_ in p.functions.values():
+        for c in t.calls_in(f_):
+            if esc in t.resolve_call(c, f_).ctor:
+                a_ = t.bind_args(esinit, c).get("resource")
+                src = ctx.expand.expand(a_, f_) if a_ is not None else []
+                if src and all(_re.search(r"config\._?resource$", x) for x in src):
+                    res.ok("C18.CHAIN", {"snapshot created with the configuration's resource": f_.loc(c)})
+                else:
+                    res.fail(Finding("C18.CHAIN", f_.qname, c, f_.loc(c), "the snapshot is not created with the resource the configuration holds (%s)" % (src or "no resource argument")))
     return res
